@@ -159,7 +159,7 @@ def ref_combos(steps, contents):
 def classify_c03(contents):
     def classify(r, d):
         q = d.get("query") or {}
-        if d["kind"] != "related" or not isinstance(q, dict) or not q.get("inverse"):
+        if d["kind"] not in ("related", "restored:related") or not isinstance(q, dict) or not q.get("inverse"):
             return None
         exp, act = set(d["expected"] or []), set(d["actual"] or [])
         if not isinstance(d["expected"], list):
@@ -372,4 +372,30 @@ def check_C12(tier, seed):
     v.assumptions = ["legacy duplicate versions are injected the way the repository's compact_test.go does it",
                      "flush thresholds 1, 2 and the product default rotate over behaviours",
                      "racing writers and kills between flushes: concurrency/crash stage (hooks)"]
+    return v.finish(rule=RULE_REPLAY)
+
+
+# ----------------------------------------------------------------------------
+# C20
+
+def check_C20(tier, seed):
+    v = Verdict("C20", tier, seed)
+    v.wd = verif.workdir("C20")
+    sd = verif.spec_copy(v.wd)
+    binary = verif.build_harness(v.wd)
+    thorough = tier == "thorough"
+    mc = mgmt_contents()
+    kinds = ("ent", "chg", "look", "rel", "cat")
+    cl = classify_c03
+    acts = ("store", "backup", "restart", "foreign")
+    datahub_stage(v, sd, binary, "C20_seq", ds=["a"], ent=["e1", "e2"], contents=mc[:2], max_batch=1,
+                  max_steps=6 if thorough else 5, acts=acts, tables="plain", kinds=kinds, limits=(0, 1),
+                  classify=cl(mc[:2]), rotate=True, per_world=60)
+    datahub_stage(v, sd, binary, "C20_deep", spec="Spec", ds=["a", "b"], ent=["e1", "e2"], contents=mc,
+                  max_batch=2, max_steps=10 if thorough else 8, acts=acts + ("txn", "create", "delete", "rename"),
+                  tables="plain,eqlen", kinds=kinds, limits=(0, 1), sample=True, seed=seed,
+                  fan=5 if thorough else 4, classify=cl(mc), rotate=True, per_world=60,
+                  target=10000 if thorough else 1500)
+    v.assumptions = ["native backup mode (badger Backup/Load); restore = badger Load of datahub-backup.kv into an empty "
+                     "directory followed by a normal hub start", "one fresh store per behaviour"]
     return v.finish(rule=RULE_REPLAY)
